@@ -23,7 +23,7 @@ vars == <<ph, pk, stage, pk1, ph1>>
 Cand == << <<2>>,          \* /slide21.xml               root level
            <<1, 2>>,       \* /slide/slide21.xml
            <<8, 10>>,      \* /slide21/p.bin             sibling-prefix directory of /slide
-           <<1, 11>>,      \* /slide/q.bin
+           <<1, 11>>,      \* /slide/q%20r.bin          a percent-escape that belongs to the name
            <<1, 9, 6>>,    \* /slide/ppt/P3.XML          depth 3, upper-case extension
            <<1, 5>>,       \* /slide/thumbnail           no extension
            <<1, 12>> >>    \* /slide/r.BIN               upper-case extension sharing "bin"
